@@ -1072,7 +1072,8 @@ fn cmd_c08(args: &std::collections::HashMap<String, String>) {
                 t
             })
             .collect();
-        let ctxs = format!("[first element: dictionary entry {}, length {}, after a stray item delimiter: {}]",
+        let later = if c["fam"] == json!("later") { "; later elements' lengths spell VR codes" } else { "" };
+        let ctxs = format!("[first element: dictionary entry {}, length {}, after a stray item delimiter: {}{later}]",
             j_str(&c["entry"]), j_str(&c["lenclass"]), c["stray"]);
         // the regular decoder of the real encoding must report the prescribed tokens (sanity of the expectation)
         let reg = run_reader(&bytes, enc, "Accept", "eager", "Preserved", false, exp.len() + 50);
@@ -1094,6 +1095,9 @@ fn cmd_c08(args: &std::collections::HashMap<String, String>) {
             n_unamb += 1;
             nontrivial += 1;
             *locks.entry(format!("{enc} {}", j_str(&c["lenclass"]))).or_insert(0) += 1;
+            if c["fam"] == json!("later") {
+                *locks.entry(format!("{enc} later elements spell VRs")).or_insert(0) += 1;
+            }
         }
         // flexible decoding, whatever transfer syntax is declared
         for declared in ["EVRLE", "IVRLE"] {
